@@ -6,3 +6,4 @@ open GoRedis
 #print axioms C19_ending_removes_exactly
 #print axioms C19_tls_fault_leaves_nothing
 #print axioms C19_churn_baseline
+#print axioms C19_source_releases_deferred
